@@ -14,11 +14,11 @@ TRUST = ("Trusted base: the asherahverif shims (vsync/vatomic/Chan/vclock/vrand)
 K_TECH = "explicit-state breadth-first search over operation histories executed on the real SDK under a virtual clock (state = canonical dump of the real object graph), oracle on every transition and state"
 CHECKS = {
     "C01": ("model_checking", K_TECH,
-            "BFS over histories of encrypt/decrypt (long-lived and per-request sessions of two processes), clock ticks across the precision / revoke-check / expiry thresholds, out-of-band revocation, restart and session close, for several cache configurations; on every transition decrypt results are compared with the original payload and in every state every catalogued record is decrypted by a fresh SDK factory and by an independent reference decryptor over the metastore snapshot. Fixed mini-runs add 1 MiB / 5 MiB payloads and factories configured with different AWS KMS regions (both plugins).", "6/C01"),
+            "BFS over histories of encrypt/decrypt (long-lived and per-request sessions of two processes), clock ticks across the precision / revoke-check / expiry thresholds, out-of-band revocation, restart and session close, for several cache configurations; on every transition decrypt results are compared with the original payload and in every state every catalogued record is decrypted by a fresh SDK factory and by an independent reference decryptor over the metastore snapshot. Fixed mini-runs add 1 MiB / 5 MiB payloads and factories configured with different AWS KMS regions (both plugins). Plus the fault space (once the faults stop, the record decrypts again), region-suffix and Store/Load sequences, and a narrow-alphabet deep history configuration.", "6/C01"),
     "C03": ("model_checking", K_TECH + "; AEAD/KMS/allocator call monitors",
-            "The same history space with monitors on every AEAD, KMS and secret-allocation call: one fresh data key per encrypt used once and wrapped once, no (key, nonce) repeated in a history (deterministic logged random source), payload only under data keys, data keys only under the partition's IK, IKs only under the SK, SK only to the KMS, and a byte-window leak scan of records, rows and log lines. The log lines of every operation - decrypts and failing operations of the fault space included - are scanned for plaintext key / payload bytes (raw, hex, base64, decimal).", "6/C03"),
+            "The same history space with monitors on every AEAD, KMS and secret-allocation call: one fresh data key per encrypt used once and wrapped once, no (key, nonce) repeated in a history (deterministic logged random source), payload only under data keys, data keys only under the partition's IK, IKs only under the SK, SK only to the KMS, and a byte-window leak scan of records, rows and log lines. The log lines of every operation - decrypts and failing operations of the fault space included - are scanned for plaintext key / payload bytes (raw, hex, base64, decimal). The AWS KMS plugins are run with a logger installed: nothing they log while wrapping / unwrapping contains the system key or a data-key plaintext.", "6/C03"),
     "C04": ("model_checking", K_TECH + "; deviation-bounded fault enumeration on expiry timelines",
-            "The same history space; on every encrypt transition the named IK's age, the parent SK of every IK row written, and the time since the parent SK expired are computed from row stamps and the virtual clock, independently of the SDK's predicates; plus timelines of a long-lived session around the key lifetime with every placement of up to 2-3 failing metastore reads / KMS unwraps (while writes are accepted no record is handed out under an expired key).", "6/C04"),
+            "The same history space; on every encrypt transition the named IK's age, the parent SK of every IK row written, and the time since the parent SK expired are computed from row stamps and the virtual clock, independently of the SDK's predicates; plus timelines of a long-lived session around the key lifetime with every placement of up to 2-3 failing metastore reads / KMS unwraps (while writes are accepted no record is handed out under an expired key). A narrow-alphabet configuration (one long-lived session, a second partition ageing the system key, three ticks, revocations) is searched two levels deeper.", "6/C04"),
     "C05": ("model_checking", K_TECH + "; deviation-bounded fault enumeration on revocation timelines",
             "The same history space with a ghost 'revoked at' stamp per row; every encrypt more than one interval after an IK revocation (two after an SK revocation) must not use / create under the revoked key; plus timelines of a long-lived session around the interval marks with every placement of up to 2-3 failing metastore reads / KMS unwraps (a failed re-check must not be answered from the cached copy).", "6/C05"),
     "C06": ("exploration", "exhaustive enumeration of an adversarial id universe (all ordered pairs) on the real SDK",
@@ -28,7 +28,7 @@ CHECKS = {
     "C08": ("model_checking", "stateless schedule exploration of the real code under a controlled scheduler (preemption-bounded DFS + happens-before state caching)",
             "Every interleaving, up to the stated preemption bound, of 2-3 goroutines decrypting/encrypting/opening sessions against one factory "
             "with capacity-1/2 shared key caches of each eviction policy is executed on the real SDK; oracle: every operation succeeds with the right bytes, "
-            "no access to a destroyed secret, everything released after close. Scenarios: eviction vs hit for every policy, encrypt/decrypt mixes, two SK generations, stale-entry refresh, session churn, session cache with one and with two holders of the evicted session, asynchronous eviction at capacity 100 (thorough).", "6/C08"),
+            "no access to a destroyed secret, everything released after close. Scenarios: eviction vs hit for every policy, encrypt/decrypt mixes, two SK generations, stale-entry refresh, session churn, session cache with one and with two holders of the evicted session, asynchronous eviction at capacity 100 (thorough), rotation of the cached latest key under users of the old generation.", "6/C08"),
     "C09": ("model_checking", K_TECH + "; tracking secret factory accounting",
             "The same history space with a tracking SecretFactory: after every call data keys are released, with caching disabled nothing stays live, live secrets are exactly the open keys reachable from the caches (walker), at most one per key and cache and never above capacity, and after restart every secret of the closed factory was released exactly once and never touched again; the same accounting on every error path of the fault space (<= 2-4 injected metastore/KMS/AEAD/allocator faults) and at the end of every interleaving of the session-cache eviction schedule harnesses.", "6/C09"),
     "C15": ("model_checking", "explicit-state breadth-first search over cache operation histories on the real cache against reference models",
@@ -39,9 +39,9 @@ CHECKS = {
 
 CHECKS.update({
     "C02": ("fault_enumeration", "deviation-bounded exhaustive enumeration of environment faults (explorer with environment choice points) on the real SDK",
-            "One encrypt from each prepared start state (cold, warm, rotating, revoked IK/SK, SK-only) with every placement of up to 2 (thorough: 3) faults over the metastore (error, false duplicate, error-after-write) and KMS calls it makes; a returned record must name rows present in the store snapshot taken at that instant and be decryptable by the independent reference from snapshot + KMS alone (= crash after return); after the faults stop the next encrypt must succeed.", "6/C02"),
+            "One encrypt from each prepared start state (cold, warm, rotating, revoked IK/SK, SK-only) with every placement of up to 2 (thorough: 3) faults over the metastore (error, false duplicate, error-after-write) and KMS calls it makes; a returned record must name rows present in the store snapshot taken at that instant and be decryptable by the independent reference from snapshot + KMS alone (= crash after return); after the faults stop the next encrypt must succeed. Region-suffixed key ids and a cancelled caller context (during any call) are part of the space.", "6/C02"),
     "C10": ("fault_enumeration", "deviation-bounded exhaustive enumeration of faults with retained-buffer inspection",
-            "The fault space extended with AEAD and secret-allocation failures: the spies retain every plaintext slice they handed out (KMS unwrap, AEAD key unwraps, the buffer given to SecretFactory.New) and all must be zero when the operation returns; plus the AWS KMS plugin product checking GenerateDataKey / Decrypt plaintext.", "6/C10"),
+            "The fault space extended with AEAD and secret-allocation failures: the spies retain every plaintext slice they handed out (KMS unwrap, AEAD key unwraps, the buffer given to SecretFactory.New) and all must be zero when the operation returns; plus the AWS KMS plugin product checking GenerateDataKey / Decrypt plaintext. The caller may cancel its context during any metastore / KMS call (which then answers normally).", "6/C10"),
     "C11": ("model_checking", "stateless schedule exploration (preemption-bounded DFS) over a shadow page table + exhaustive operation sequences on real pages observed through /proc/self/smaps",
             "(b) every interleaving up to the bound of readers (one nested; callbacks that panic or return an error), closers and an IsClosed poller on one secret of each implementation with a scheduling point inside every callback: callbacks only run on read-only pages with the original bytes, Close returns only after the last reader, later accesses fail, wipe precedes unlock; (a) every operation sequence (incl. callbacks that panic or fail) up to depth 4/5 on real mmap/mlock/mprotect memory for sizes 1 B..3 pages with smaps permissions and VmFlags (lo, dd) checked inside callbacks and after each step, in child processes so that a SIGSEGV is an observation.", "6/C11"),
     "C12": ("fault_enumeration", "deviation-bounded exhaustive enumeration of failing memory primitives over a shadow page table",
